@@ -28,17 +28,58 @@ def _is_kernel(f) -> bool:
     return any("jit" in norm(d) for d in f.node.decorator_list)
 
 
-def input_purity(ctx, rule: str, consequence: str, min_functions: int = 150):
-    """No function of the package modifies (a view of) an array it was handed, except the frozen output-parameter table."""
+def storage_attrs(repo) -> Set[str]:
+    """Attribute names through which an object hands out its own storage: fields annotated as arrays and fields holding
+    instances of the package's own classes (collected from dataclass fields and `self.x: T = ...` / `self.x = param` in __init__)."""
+    out: Set[str] = set()
+    class_names = set()
+    for m in repo.modules.values():
+        if m.name.startswith("tdgl.test"):
+            continue
+        for c in m.classes.values():
+            class_names.add(c.name)
+    for m in repo.modules.values():
+        if m.name.startswith("tdgl.test"):
+            continue
+        for c in m.classes.values():
+            props = {n for n, f in c.methods.items() if any(norm(d) == "property" for d in f.node.decorator_list)}
+
+            def arrayish(ann) -> bool:
+                t = norm(ann)
+                return "ndarray" in t or any(k in t.replace("'", "").replace('"', "") for k in class_names if len(k) > 3)
+            for st in c.node.body:
+                if isinstance(st, ast.AnnAssign) and isinstance(st.target, ast.Name) and arrayish(st.annotation):
+                    out.add(st.target.id)
+            init = c.methods.get("__init__")
+            if init is not None:
+                ann = {a.arg: a.annotation for a in init.node.args.args + init.node.args.kwonlyargs if a.annotation is not None}
+                for st in own_nodes(init.node):
+                    if isinstance(st, ast.AnnAssign) and isinstance(st.target, ast.Attribute) and arrayish(st.annotation):
+                        out.add(st.target.attr)
+                    if isinstance(st, ast.Assign) and isinstance(st.value, ast.Name) and st.value.id in ann and arrayish(ann[st.value.id]):
+                        for t in st.targets:
+                            if isinstance(t, ast.Attribute) and isinstance(t.value, ast.Name) and t.value.id == "self":
+                                out.add(t.attr)
+            out -= props & out if False else set()
+    return out
+
+
+def input_purity(ctx, rule: str, consequence: str, min_functions: int = 150, modules: tuple = ()):
+    """No function of the package (or of the given module prefixes) modifies (a view of) an array it was handed, except the
+    frozen output-parameter table."""
     repo = ctx.repo
+    through = storage_attrs(repo)
+    ctx.note("storage_attributes", sorted(through))
     n = 0
     seen_out = set()
     out_names = {fq.split(":")[1]: fq for fq in OUTPUT_PARAMS}
     for f in repo.all_functions():
         if any(f.module.name.startswith(m) for m in PURITY_SKIP_MODULES):
             continue
+        if modules and not any(f.module.name.startswith(m) for m in modules):
+            continue
         n += 1
-        res = analyse(f.node)
+        res = analyse(f.node, through_attrs=through)
         bad = []
         for node, lab, what in res.writes:
             if f.fq in OUTPUT_PARAMS and OUTPUT_PARAMS[f.fq][0] == lab:
